@@ -103,6 +103,7 @@ func runRules(prop, repo string, overlay map[string][]byte, env []string, tier s
 	p := rules.All[prop]
 	rep := core.NewReport(prop, tier, 0)
 	ctx := &rules.Ctx{Prog: prog, Pkg: prog.Cache, R: rep, Tier: tier}
+	ctx.Prepare()
 	func() {
 		defer func() {
 			if x := recover(); x != nil {
